@@ -66,6 +66,57 @@ pub fn any_settings() -> DefaultSettings<f64> {
     s
 }
 
+/// "cheap factor" domain: {±2^k for every normal exponent k, ±0, ±inf, NaN}.  The significand is a constant, so a
+/// product or quotient with such a value bit-blasts to exponent arithmetic; used for the factors of the
+/// products that the oracle has to recompute (an equivalence check of two 53-bit multipliers otherwise).
+pub fn pow2_or_special() -> f64 {
+    let k: u16 = kani::any();
+    kani::assume(k >= 1 && k <= 2046);
+    let sel: u8 = kani::any();
+    let v = match sel {
+        0 => 0.0,
+        1 => f64::INFINITY,
+        2 => f64::NAN,
+        _ => f64::from_bits((k as u64) << 52),
+    };
+    if kani::any() {
+        -v
+    } else {
+        v
+    }
+}
+
+/// which factor of the recomputed products `-tol_infeas_rel * <b,z>`, `-tol_infeas_rel * <q,x>` is taken from
+/// the cheap-factor domain (the other one, like everything else, ranges over all f64 bit patterns);
+/// `tol_ktratio` (a quotient and a product by 1000) is from the cheap-factor domain in both modes
+#[derive(Clone, Copy, PartialEq)]
+pub enum Cheap {
+    Tolerances,
+    DotProducts,
+}
+
+pub fn any_settings_cheap(mode: Cheap) -> DefaultSettings<f64> {
+    let mut s = any_settings();
+    s.tol_ktratio = pow2_or_special();
+    s.reduced_tol_ktratio = pow2_or_special();
+    if mode == Cheap::Tolerances {
+        s.tol_infeas_rel = pow2_or_special();
+        s.reduced_tol_infeas_rel = pow2_or_special();
+    }
+    s
+}
+
+pub fn any_residual_scalars_cheap(n: usize, m: usize, mode: Cheap) -> DefaultResiduals<f64> {
+    let mut r = DefaultResiduals::<f64>::new(n, m);
+    let mut sc: [f64; 5] = kani::any();
+    if mode == Cheap::DotProducts {
+        sc[1] = pow2_or_special();
+        sc[2] = pow2_or_special();
+    }
+    dh::residuals_set_scalars(&mut r, sc);
+    r
+}
+
 pub fn any_residual_scalars(n: usize, m: usize) -> DefaultResiduals<f64> {
     let mut r = DefaultResiduals::<f64>::new(n, m);
     let sc: [f64; 5] = kani::any();
@@ -118,10 +169,16 @@ struct Term {
 }
 
 fn run_termination() -> Term {
+    run_termination_with(None)
+}
+
+fn run_termination_with(mode: Option<Cheap>) -> Term {
     let mut info = any_info();
     info.status = SolverStatus::Unsolved; // loop invariant of Solver::solve (decided in C04.loop)
-    let r = any_residual_scalars(1, 1);
-    let s = any_settings();
+    let (r, s) = match mode {
+        None => (any_residual_scalars(1, 1), any_settings()),
+        Some(m) => (any_residual_scalars_cheap(1, 1, m), any_settings_cheap(m)),
+    };
     let iter: u32 = kani::any();
     let before = info.clone();
     let ret = info.check_termination(&r, &s, iter);
@@ -163,9 +220,8 @@ pub fn c01_verdict_solved() {
 }
 
 /// C02.verdict — infeasibility verdicts only with the documented certificate inequalities
-#[kani::proof]
-pub fn c02_verdict_infeasible() {
-    let t = run_termination();
+fn verdict_infeasible(mode: Cheap) {
+    let t = run_termination_with(Some(mode));
     let st = t.after.status;
     let ok = solved_test(&t.before, t.s.tol_gap_abs, t.s.tol_gap_rel, t.s.tol_feas);
     let kt = kt_large(&t.before, t.s.tol_ktratio);
@@ -188,10 +244,20 @@ pub fn c02_verdict_infeasible() {
     kani::cover!(st == SolverStatus::DualInfeasible, "DualInfeasible reached");
 }
 
+#[kani::proof]
+pub fn c02_verdict_infeasible() {
+    verdict_infeasible(Cheap::Tolerances);
+}
+
+#[kani::proof]
+pub fn c02_verdict_infeasible_dots() {
+    verdict_infeasible(Cheap::DotProducts);
+}
+
 /// C04 (limits) + C03: iteration / time limits and insufficient progress
 #[kani::proof]
 pub fn c04_verdict_limits() {
-    let t = run_termination();
+    let t = run_termination_with(Some(Cheap::Tolerances));
     let st = t.after.status;
     let b = &t.before;
     let ok = solved_test(b, t.s.tol_gap_abs, t.s.tol_gap_rel, t.s.tol_feas);
@@ -243,8 +309,8 @@ pub fn c03_almost() {
     let mut info = any_info();
     let prior = any_status();
     info.status = prior;
-    let r = any_residual_scalars(1, 1);
-    let s = any_settings();
+    let r = any_residual_scalars_cheap(1, 1, Cheap::Tolerances);
+    let s = any_settings_cheap(Cheap::Tolerances);
     let before = info.clone();
     info.post_process(&r, &s);
     let st = info.status;
@@ -530,6 +596,16 @@ fn pow2() -> f64 {
 }
 
 fn scale_invariance<const M: usize>() {
+    // the scalings are enumerated (concrete): with symbolic power-of-two scalings *and* symbolic data the
+    // query (two f64 pipelines with ~40 products, 10 square roots) did not finish in 50 min.  Each combination
+    // uses values that distinguish d from 1/d, e from 1/e, c from 1/c and the powers of tau.
+    for (d, e0, c, tau) in [(2.0f64, 0.5f64, 4.0f64, 2.0f64), (0.25, 4.0, 0.5, 1.0), (4.0, 2.0, 0.25, 4.0)] {
+        scale_invariance_at::<M>(d, e0, c, tau);
+    }
+    kani::cover!(true, "all scaling combinations visited");
+}
+
+fn scale_invariance_at<const M: usize>(d: f64, e0: f64, c: f64, tau: f64) {
     use clarabel::solver::traits::Residuals;
     // user data: P = [p], q = [q], A = a (M x 1 dense), b
     let p = small_f64(3);
@@ -543,18 +619,7 @@ fn scale_invariance<const M: usize>() {
         b[i] = small_f64(3);
         i += 1;
     }
-    // scalings (powers of two) and scaled iterate
-    let d = pow2();
-    let c = pow2();
-    let tau = {
-        let k: u8 = kani::any();
-        kani::assume(k < 3);
-        match k {
-            0 => 1.0,
-            1 => 2.0,
-            _ => 4.0,
-        }
-    };
+    // scaled iterate
     let kappa = small_f64(3);
     let mut e = [0f64; M];
     let mut x = [0f64; 1];
@@ -563,7 +628,7 @@ fn scale_invariance<const M: usize>() {
     x[0] = small_f64(3);
     let mut i = 0;
     while i < M {
-        e[i] = pow2();
+        e[i] = if i == 0 { e0 } else { 1.0 / e0 };
         z[i] = small_f64(3);
         s[i] = small_f64(3);
         i += 1;
@@ -640,7 +705,7 @@ fn scale_invariance<const M: usize>() {
     }
     assert!(ib.cost_primal == q * xu + (xu * p * xu) / 2.0, "cost_primal_formula");
     assert!(ib.cost_dual == -bz - (xu * p * xu) / 2.0, "cost_dual_formula");
-    kani::cover!(d == 4.0 && e[0] == 0.25 && c == 2.0 && tau == 2.0 && x[0] == 3.0 && s[0] == 2.0, "non-trivial scaling");
+    kani::cover!(x[0] == 3.0 && s[0] == 2.0 && p == 1.0 && a[0] == -2.0, "non-trivial iterate");
 }
 
 #[kani::proof]
